@@ -3,6 +3,7 @@ CutCheck.tla (graph surgery, sharing, independence, soundness w.r.t. the executi
 import contextlib
 import io
 import json
+import os
 
 from harness import framework as fw
 from harness.corpus import cases_for, _files_hash, SPEC_FILES, HARNESS_FILES
@@ -60,7 +61,66 @@ def observe_cuts(text, paths):
             except BaseException as e:  # noqa: BLE001
                 obs["exc"] = "%s: %s" % (type(e).__name__, str(e)[:150])
             res.append(obs)
+    _via_config(text, paths, res)
     return res
+
+
+def _shape(f):
+    """blocks of a function with the ids of the cut-off error blocks (numbered by creation) replaced by -1"""
+    def n(x):
+        return int(x.idx) if int(x.idx) < 65536 else -1
+    return [[int(b.idx), [n(x) for x in b.next], sorted(n(x) for x in b.prev)] for b in sorted(f.blocks, key=lambda b: b.idx)
+            if int(b.idx) < 65536]
+
+
+def _via_config(text, paths, res):
+    """The same functions built the way `tealer detect --group-config` builds them: ONE configuration naming every path as
+    a function of one contract (init_tealer_from_config).  Recorded next to the directly built function: shape and contexts."""
+    from harness.observe import _ctx
+    from tealer.teal.parse_teal import parse_teal
+    from tealer.teal.parse_functions import construct_function
+    from tealer.utils.command_line.group_config import (GroupConfig, GroupConfigContract, GroupConfigFunction,
+                                                        GroupConfigGroup, GroupConfigTransaction, GroupConfigFunctionCall)
+    from tealer.utils.command_line.common import init_tealer_from_config
+    from tealer.utils.teal_enums import ContractType
+    import shutil
+    import tempfile
+    work = tempfile.mkdtemp(prefix="cutcfg-", dir=os.path.join(fw.OUT, "work"))
+    buf = io.StringIO()
+    try:
+        with contextlib.redirect_stdout(buf), contextlib.redirect_stderr(buf):
+            path = os.path.join(work, "c.teal")
+            with open(path, "w") as fh:
+                fh.write(text)
+            probe = parse_teal(text, "c")
+            is_app = probe.contract_type != ContractType.LogicSig
+            funcs = [GroupConfigFunction("f%d" % i, ["B%d" % b for b in p]) for i, p in enumerate(paths)]
+            contract = GroupConfigContract("P", path, "ApprovalProgram" if is_app else "LogicSig", int(probe.version), [], funcs)
+            call = GroupConfigFunctionCall("P", "f0")
+            if is_app:
+                tx = GroupConfigTransaction("T1", "appl", application=call, has_logic_sig=None, logic_sig=None,
+                                            absolute_index=None, relative_indexes=None)
+            else:
+                tx = GroupConfigTransaction("T1", "txn", application=None, has_logic_sig=True, logic_sig=call,
+                                            absolute_index=None, relative_indexes=None)
+            tealer = init_tealer_from_config(GroupConfig("g", [contract], [GroupConfigGroup("op", [tx])]))
+            teal = tealer.contracts["P"]
+            for i, (p, obs) in enumerate(zip(paths, res)):
+                if not obs.get("ok"):
+                    continue
+                f = teal.functions["f%d" % i]
+                alone = construct_function(parse_teal(text, "c"), ["B%d" % b for b in p], "f")
+                obs["via"] = {"ok": True, "exc": "", "name": f.function_name, "shape": _shape(f),
+                              "ctx": {str(b.idx): _ctx(f.transaction_context(b)) for b in f.blocks if int(b.idx) < 65536}}
+                obs["direct"] = {"name": "f%d" % i, "shape": _shape(alone),
+                                 "ctx": {str(b.idx): _ctx(alone.transaction_context(b)) for b in alone.blocks if int(b.idx) < 65536}}
+    except BaseException as e:  # noqa: BLE001
+        for obs in res:
+            if obs.get("ok") and "via" not in obs:
+                obs["via"] = {"ok": False, "exc": "%s: %s" % (type(e).__name__, str(e)[:150]), "name": "", "shape": [], "ctx": {}}
+                obs["direct"] = {"name": "", "shape": [], "ctx": {}}
+    finally:
+        shutil.rmtree(work, ignore_errors=True)
 
 
 def run_cut(tier, seed):
